@@ -106,6 +106,11 @@ class IntervalRange(MetaHandlerGenerator):
     def __class_getitem__(cls, args):
         return IntervalRange(*args)
 
+    def __repr__(self):
+        # (like the other refinements: the structured representations key gene lists by the printed form of a symbol,
+        # which must not contain the address of this object)
+        return f"[{self.minimum_length}...{self.maximum_length}|{self.maximum_top_limit}]"
+
     def generate(
         self,
         random: RandomSource,
